@@ -3,6 +3,7 @@ import TantivyModel.Proofs.SSTable.Writer
 import TantivyModel.Proofs.SSTable.Stream
 import TantivyModel.Proofs.SSTable.OrdToTerm
 import TantivyModel.Proofs.SSTable.RangeDict
+import TantivyModel.Proofs.SSTable.DeltaScan
 /-!
 # C15 — Term dictionaries behave as ordered maps from byte strings
 
@@ -144,6 +145,27 @@ theorem C15_block_scan (ks : List Key) (k : Key) (hs : StrictInc ks) :
   refine ⟨?_, specHit_exact ks k hs⟩
   rw [scanOrNext_spec ks k 0 hs, Hit.shift_zero]
 
+/-- `decode_up_to_or_next` as the code runs it — on the front-coded `(keep, suffix)` entries of a
+block, tracking only `ok_bytes` = number of key bytes matched so far (entry popped below `ok_bytes`
+⇒ too far; entry keeping more ⇒ still below; equal ⇒ compare the suffix) — equals the plain scan of
+the decoded keys, for every strictly increasing block and every key. Hence every block-model
+theorem above applies to the byte layout. -/
+theorem C15_delta_scan (ks : List Key) (k : Key) (hs : StrictInc ks) :
+    deltaScan k (deltaEntries [] ks) 0 0 = scanOrNext ks k 0 :=
+  deltaScan_spec k ks [] 0 0 (by rw [cpl_comm, cpl_nil_left]) (Or.inl rfl) hs (Or.inl rfl)
+
+/-- `term_ord_or_next` through the front-coded scan = through the plain scan, on the dictionary
+built from any sorted map -/
+theorem C15_delta_scan_dict {V} (blockLen : Nat) (m : Assoc V) (hs : SortedMap m) (k : Key) :
+    (build blockLen m).termOrdOrNextDelta k = (build blockLen m).termOrdOrNext k := by
+  unfold Dict.termOrdOrNextDelta Dict.termOrdOrNext
+  cases h : ((build blockLen m).locateKey k).bind (build blockLen m).blockAt with
+  | none => rfl
+  | some b =>
+    obtain ⟨pre, post, ha, _⟩ := dict_split blockLen m hs k b h
+    simp only
+    rw [C15_delta_scan _ k (ha.sortedB hs)]
+
 /-! ## streams -/
 
 /-- `Streamer::advance` (skip below the lower bound — tested only until its first success —,
@@ -240,7 +262,6 @@ theorem C15_inverted_range_counterexample :
 
 /- Still to prove (full statements; the harness compares these operations on every run):
    C15_prefix_range           : isPrefixOf p k ↔ matchLo (prefixBounds p).1 k ∧ matchHi (prefixBounds p).2 k
-   C15_delta_scan             : StrictInc ks → deltaScan k (deltaEntries [] ks) 0 0 = scanOrNext ks k 0
    C15_automaton_stream       : A.CanMatchSound → keys/values of (build L m).search A lo hi
                                   = search A m lo hi, i.e. `canBlockMatch` is a sound pruning in the
                                   sense of C15_automaton_stream_partial
